@@ -91,7 +91,7 @@ def order_preserving_twins(rng, t):
 _CONTAINER_TAGS = ("$list", "$tuple", "$set", "$frozenset", "$deque", "$dict", "$odict", "f")
 
 
-def value_twin(rng, v):
+def value_twin(rng, v, numeric=True):
     """A value AST that is ==/hash-equal to ``v`` where Python's equality allows another
     representation: equal instants with another offset, 1/1.0/True, Decimal exponents."""
     v = copy.deepcopy(v)
@@ -110,6 +110,19 @@ def value_twin(rng, v):
                     changed[0] = True
                 return x
             if "$t" in x:
+                H, M, S, us, off = x["$t"][:5]
+                if off is not None:
+                    for new_off in rng.sample([0, 330, -300, 60, 765, -480], 6):
+                        mins = H * 60 + M + (new_off - off)
+                        if new_off != off and 0 <= mins < 1440:  # stays within the day: equal and hash-equal
+                            x["$t"] = [mins // 60, mins % 60, S, us, new_off]
+                            changed[0] = True
+                            break
+                return x
+            if "$f" in x and not numeric:
+                if repr(x["$f"]) in ("0.0", "'0.0'", "-0.0", "'-0.0'", "0", "'0'"):
+                    x["$f"] = "-0.0" if str(x["$f"]) in ("0.0", "0") else "0.0"
+                    changed[0] = True
                 return x
             if "$dec" in x:
                 import decimal
@@ -127,7 +140,7 @@ def value_twin(rng, v):
             return x
         if isinstance(x, list):
             return [walk(e) for e in x]
-        if isinstance(x, bool):
+        if isinstance(x, bool) or not numeric:
             return x
         if isinstance(x, int) and x in (0, 1) and rng.random() < 0.5:
             changed[0] = True
